@@ -614,7 +614,9 @@ class CircuitFinderSat:
                 if self._gate_type_variable(gate, p, q) in model:
                     gate_tt.append(True)
                 else:
-                    assert -self._gate_type_variable(gate, p, q) in model
+                    # the variable is absent from the formula (hence from the model)
+                    # when nothing constrains it, e.g. for a model of don't cares
+                    # only in the full basis: any value will do.
                     gate_tt.append(False)
 
             first_predecessor_str = (
